@@ -112,7 +112,14 @@ pub trait Deserialize: DeserializeInner {
         }
         // deserialize the data structure
         let mem = unsafe { (*ptr).1.as_ref().unwrap() };
-        let s = Self::deserialize_eps(mem)?;
+        let s = match Self::deserialize_eps(mem) {
+            Ok(s) => s,
+            Err(e) => {
+                // The backend has been already written: release it.
+                unsafe { core::ptr::drop_in_place(addr_of_mut!((*ptr).1)) };
+                return Err(e.into());
+            }
+        };
         // write the deserialized struct in the memcase
         unsafe {
             addr_of_mut!((*ptr).0).write(s);
@@ -159,7 +166,14 @@ pub trait Deserialize: DeserializeInner {
         }
         // deserialize the data structure
         let mem = unsafe { (*ptr).1.as_ref().unwrap() };
-        let s = Self::deserialize_eps(mem)?;
+        let s = match Self::deserialize_eps(mem) {
+            Ok(s) => s,
+            Err(e) => {
+                // The backend has been already written: release it.
+                unsafe { core::ptr::drop_in_place(addr_of_mut!((*ptr).1)) };
+                return Err(e.into());
+            }
+        };
         // write the deserialized struct in the MemCase
         unsafe {
             addr_of_mut!((*ptr).0).write(s);
@@ -203,7 +217,14 @@ pub trait Deserialize: DeserializeInner {
 
         let mmap = unsafe { (*ptr).1.as_ref().unwrap() };
         // deserialize the data structure
-        let s = Self::deserialize_eps(mmap)?;
+        let s = match Self::deserialize_eps(mmap) {
+            Ok(s) => s,
+            Err(e) => {
+                // The backend has been already written: release it.
+                unsafe { core::ptr::drop_in_place(addr_of_mut!((*ptr).1)) };
+                return Err(e.into());
+            }
+        };
         // write the deserialized struct in the MemCase
         unsafe {
             addr_of_mut!((*ptr).0).write(s);
